@@ -313,9 +313,15 @@ def shrink(ctx, prefix: str, events: List[List[Any]], pb: Dict[str, Any], extra:
     return cur
 
 
+def _chunk(n: int) -> int:
+    # coqbuild.coq_eval only drains a worker's stdout once it has exited; with more files than parallel jobs
+    # the workers block on a full pipe.  Keep the number of files below the number of jobs.
+    return max(50, -(-n // 14))
+
+
 def compare_flock(ctx, drivers: List[Driver], clients: List[int], name: str) -> None:
     exprs = [flock_expr(d.events, clients) for d in drivers]
-    got = coqbuild.coq_eval(REQ, exprs, chunk=120)
+    got = coqbuild.coq_eval(REQ, exprs, chunk=_chunk(len(exprs)))
     bad = []
     for d, g in zip(drivers, got):
         trace, summ, now = g
@@ -334,7 +340,7 @@ def compare_flock(ctx, drivers: List[Driver], clients: List[int], name: str) -> 
 
 def compare_s3(ctx, drivers: List[Driver], clients: List[int], lease_s: int, name: str) -> None:
     exprs = [s3_expr(d.events, clients, lease_s * 1000) for d in drivers]
-    got = coqbuild.coq_eval(REQ, exprs, chunk=120)
+    got = coqbuild.coq_eval(REQ, exprs, chunk=_chunk(len(exprs)))
     bad = []
     for d, g in zip(drivers, got):
         trace, summ, (owner, now, late) = g
